@@ -332,6 +332,10 @@ class PartitioningPatternEncoder(PatternEncoderBase):
         if any(n.conns != tgt[0].conns for n in tgt):
             return False
 
+        # Check that there is something to choose (otherwise a design variable with one option would be defined)
+        if len(src) == 1 and tgt[0].conns == [1]:
+            return False
+
         # Check if there are not too many connections asked for
         n_min_total = src[0].min_conns*len(src)
         if n_min_total > len(tgt):
